@@ -13,7 +13,26 @@
 ; decoding the canonical encoding gives the address back (bech32 round trip), for non-empty addresses
 (assert (forall ((a Addr)) (! (=> (not (= a addr!nil)) (and (okAddr (bech32 a)) (= (decodeAddr (bech32 a)) a))) :pattern ((bech32 a)))))
 (assert (= (bech32 addr!nil) ""))
-; ledger (x/bank) as a ghost map account -> denom -> amount
-(define-fun bal ((b (Array Addr (Array String Int))) (a Addr) (d String)) Int (select (select b a) d))
-(define-fun setbal ((b (Array Addr (Array String Int))) (a Addr) (d String) (v Int)) (Array Addr (Array String Int)) (store b a (store (select b a) d v)))
-(define-fun move ((b (Array Addr (Array String Int))) (from Addr) (to Addr) (d String) (v Int)) (Array Addr (Array String Int)) (setbal (setbal b from d (- (bal b from d) v)) to d (+ (bal (setbal b from d (- (bal b from d) v)) to d) v)))
+; ledger (x/bank): an abstract sort with an observer (bal) and transformers (move, mint, burn).
+; Ledgers are compared structurally (congruence); balances are obtained through the axioms below.
+(declare-sort Bank 0)
+(declare-fun bal (Bank Addr String) Int)
+(declare-fun supply (Bank String) Int)
+(declare-fun move (Bank Addr Addr String Int) Bank)    ; debit `from`, then credit `to` (from = to is a net no-op)
+(declare-fun mint (Bank Addr String Int) Bank)         ; credit and raise supply
+(declare-fun burn (Bank Addr String Int) Bank)         ; debit and lower supply
+(define-fun moveIf ((c Bool) (b Bank) (from Addr) (to Addr) (d String) (v Int)) Bank (ite c (move b from to d v) b))
+(assert (forall ((b Bank) (f Addr) (t Addr) (d String) (v Int) (a Addr) (e String))
+  (! (= (bal (move b f t d v) a e)
+        (+ (bal b a e) (ite (and (= a t) (= e d)) v 0) (ite (and (= a f) (= e d)) (- v) 0)))
+     :pattern ((bal (move b f t d v) a e)))))
+(assert (forall ((b Bank) (f Addr) (t Addr) (d String) (v Int) (e String))
+  (! (= (supply (move b f t d v) e) (supply b e)) :pattern ((supply (move b f t d v) e)))))
+(assert (forall ((b Bank) (t Addr) (d String) (v Int) (a Addr) (e String))
+  (! (= (bal (mint b t d v) a e) (+ (bal b a e) (ite (and (= a t) (= e d)) v 0))) :pattern ((bal (mint b t d v) a e)))))
+(assert (forall ((b Bank) (t Addr) (d String) (v Int) (e String))
+  (! (= (supply (mint b t d v) e) (+ (supply b e) (ite (= e d) v 0))) :pattern ((supply (mint b t d v) e)))))
+(assert (forall ((b Bank) (f Addr) (d String) (v Int) (a Addr) (e String))
+  (! (= (bal (burn b f d v) a e) (- (bal b a e) (ite (and (= a f) (= e d)) v 0))) :pattern ((bal (burn b f d v) a e)))))
+(assert (forall ((b Bank) (f Addr) (d String) (v Int) (e String))
+  (! (= (supply (burn b f d v) e) (- (supply b e) (ite (= e d) v 0))) :pattern ((supply (burn b f d v) e)))))
